@@ -3,6 +3,7 @@ on-disk format (text headers + binary FAB files).
 
 Everything random derives from the random.Random instance passed in."""
 import os
+import shutil
 import random
 import struct
 import numpy as np
@@ -382,6 +383,38 @@ def gen_plotfile(rng, ndims=None, nlevels=None, payload=None, geo_stream=None,
     return pf
 
 
+def flatten_axis(pf, d):
+    """turns pf into a slab one coarse cell thick along direction d (2**lv cells at level lv): keeps the boxes that touch
+    the low face and crops them; levels left without a box are dropped together with those above"""
+    levels = []
+    for lv, level in enumerate(pf.levels):
+        thick = 2 ** lv
+        keep = [b for b, (lo, hi) in enumerate(level.boxes) if lo[d] == 0]
+        if not keep:
+            break
+        new = Level()
+        renum = {}
+        for b in keep:
+            lo, hi = level.boxes[b]
+            renum[b] = len(new.boxes)
+            new.boxes.append((lo, tuple(min(h, thick - 1) if k == d else h for k, h in enumerate(hi))))
+            sl = [slice(None)] * (pf.ndims + 1)
+            sl[d] = slice(0, thick)
+            new.data.append(np.asfortranarray(level.data[b][tuple(sl)]))
+        for name, members in level.files:
+            m = [renum[b] for b in members if b in renum]
+            if m:
+                new.files.append((name, m))
+        levels.append(new)
+    pf.levels = levels
+    pf.n0 = [1 if k == d else n for k, n in enumerate(pf.n0)]
+    if getattr(pf, 'geo_high_given', None):
+        pf.geo_high_given = None
+    pf.meta.update(nlevels=len(levels), nboxes=[len(l.boxes) for l in levels], nfiles=[len(l.files) for l in levels],
+                   n0=pf.n0, slab_axis=d, layouts=pf.meta['layouts'][:len(levels)])
+    return pf
+
+
 def gen_deep_plotfile(rng, nlevels=12, ndims=2, nfields=2):
     """a well-formed plotfile with MANY levels (Level_10, Level_11, ... sort before Level_2 as strings): every level
     is one 2x2(x2) box refining one cell of the box below; tiny, so that a dozen levels stay cheap"""
@@ -479,13 +512,25 @@ def cell_h_text(pf, lv, loc=None, mins=None, maxs=None):
 
 def box_bounds(pf, lv, lo, hi):
     dx = pf.dx(lv)
-    return [(pf.geo_low[d] + lo[d] * dx[d], pf.geo_low[d] + (hi[d] + 1) * dx[d]) for d in range(pf.ndims)]
+    dl = [d * 2 ** lv for d in getattr(pf, 'dom_lo0', [0] * pf.ndims)]
+    return [(pf.geo_low[d] + (lo[d] - dl[d]) * dx[d], pf.geo_low[d] + (hi[d] + 1 - dl[d]) * dx[d]) for d in range(pf.ndims)]
+
+
+def shift_index_space(pf, shift0):
+    """AMReX index space need not start at zero: moves the whole index space by shift0 coarse cells per direction
+    (domain boxes, level boxes and FAB headers alike; the physical geometry stays where it was)"""
+    pf.dom_lo0 = list(shift0)
+    for lv, level in enumerate(pf.levels):
+        sh = [d * 2 ** lv for d in shift0]
+        level.boxes = [(tuple(a + d for a, d in zip(lo, sh)), tuple(a + d for a, d in zip(hi, sh))) for lo, hi in level.boxes]
+    pf.meta['index_shift'] = list(shift0)
+    return pf
 
 
 def header_text(pf, extra_ratio=0):
     nl = pf.nlevels
     zeros = ','.join('0' for _ in range(pf.ndims))
-    out = ["HyperCLaw-V1.1\n", f"{len(pf.fields)}\n"]
+    out = [getattr(pf, 'version', 'HyperCLaw-V1.1') + "\n", f"{len(pf.fields)}\n"]
     out += [f + "\n" for f in pf.fields]
     out.append(f"{pf.ndims}\n")
     out.append(fnum(pf.time) + "\n")
@@ -495,8 +540,9 @@ def header_text(pf, extra_ratio=0):
     out.append(' '.join('2' for _ in range(nl - 1 + extra_ratio)) + "\n")
     tups = []
     for lv in range(nl):
-        sizes = ','.join(str(s - 1) for s in pf.grid_size(lv))
-        tups.append(f"(({zeros}) ({sizes}) ({zeros}))")
+        dlo = [d * 2 ** lv for d in getattr(pf, 'dom_lo0', [0] * pf.ndims)]
+        sizes = ','.join(str(l + s - 1) for l, s in zip(dlo, pf.grid_size(lv)))
+        tups.append(f"(({','.join(map(str, dlo))}) ({sizes}) ({zeros}))")
     out.append(' '.join(tups) + "\n")
     out.append(' '.join(str(pf.step) for _ in range(nl)) + "\n")
     for lv in range(nl):
@@ -528,6 +574,48 @@ def write_plotfile(pf, path):
         with open(os.path.join(d, 'Cell_H'), 'w') as f:
             f.write(cell_h_text(pf, lv, loc))
     return path
+
+
+def mixed_digit_files(pf, r):
+    """renames the binary files of the levels that have several so that five- and six-digit numbers meet
+    (Cell_D_99999 next to Cell_D_100000: AMReX adds digits as needed): sorted as strings the six-digit ones come
+    first, sorted as numbers they come last"""
+    done = False
+    for level in pf.levels:
+        n = len(level.files)
+        if n < 2:
+            continue
+        six = set(r.sample(range(n), r.randint(1, n - 1)))
+        lo5 = r.sample(range(20000, 100000), n)
+        hi6 = r.sample(range(100000, 200000), n)
+        level.files = [(f"Cell_D_{hi6[k] if k in six else lo5[k]}", m) for k, (name, m) in enumerate(level.files)]
+        done = True
+    if done:
+        pf.meta['file_numbers'] = 'five and six digits'
+    return done
+
+
+def symlink_parts(path, store, r):
+    """moves level directories and / or binary files of the plotfile at [path] into the directory [store] under OTHER
+    names and leaves symbolic links in their place (archived levels, de-duplicated binaries): every reader follows the
+    links, the plotfile is as well-formed as before.  -> description"""
+    os.makedirs(store, exist_ok=True)
+    done = []
+    for lvdir in sorted(d for d in os.listdir(path) if d.startswith('Level_')):
+        full = os.path.join(path, lvdir)
+        how = r.choice(['keep', 'dir', 'files', 'files', 'dir+files'])
+        if 'files' in how:
+            for k, name in enumerate(sorted(n for n in os.listdir(full) if n.startswith('Cell_D_'))):
+                if r.random() < 0.7:
+                    tgt = os.path.join(store, f"{lvdir}_fab_{k:03d}.bin")
+                    shutil.move(os.path.join(full, name), tgt)
+                    os.symlink(tgt, os.path.join(full, name))
+        if 'dir' in how:
+            tgt = os.path.join(store, 'archived_' + lvdir.lower().replace('_', ''))
+            shutil.move(full, tgt)
+            os.symlink(tgt, full)
+        done.append(f"{lvdir}:{how}")
+    return ' '.join(done)
 
 
 # ---------------------------------------------------------------- to the model
